@@ -575,6 +575,8 @@ def run(chk):
     chk.rule("qc-term-coverage", "qc_model (abstract run on sparse symbolic integrals): one processed term per non-zero integral in both layouts", 2)
     chk.rule("out-ops-shape", "the bond operators kept for later site swaps have one structure whichever path of construct_symbolic_mpo built them (abstract run of both paths)", 1)
     out_ops_shape_rule(chk, src, "out-ops-shape")
+    from . import decompose_rules as DR
+    DR.one_term_rule(chk, src, "out-ops-shape")
     chk.rule("spin-orbital-integrals", "int_to_h (abstract run on symbolic integrals of two spatial orbitals): spin-diagonal one-electron part, antisymmetrised two-electron part", 1)
     int_to_h_rule(chk, src, "spin-orbital-integrals")
     chk.rule("jw-sign-parity", "Jordan-Wigner sign of an operator-side site swap over its whole (finite) input space", 2)
